@@ -64,12 +64,16 @@ def param_tokens(ex, r):
     if "stringlist" in types:
         out.append([b"[", b'"p"', b",", b'"q"', b"]"])
         out.append([b"[", b'"p"', b",", b'"q"', b",", b'"p"', b"]"])      # the last item repeats an earlier one
+        out.append(LONG_LIST)
     if "number" in types:
         out.append([b"7"])
     return out
 
 
 _RT = [0]
+# a list far wider than a line, items with blanks, a quote, a backslash and a line break in them: printed and read back as it is
+LONG_LIST = [b"[", b'"travel and expenses for march"', b",", b'"a folder name with several words"', b",", b'"say \\"hi\\" to them"', b",",
+             b'"back\\\\slash and more words here"', b",", b'"two\nlines in one item"', b",", b'"last item of a long list"', b"]"]
 
 
 def req_tokens(a):
@@ -79,6 +83,8 @@ def req_tokens(a):
     if "number" in a["type"]:
         return [b"42"]
     if "stringlist" in a["type"]:
+        if _RT[0] % 7 == 0:
+            return list(LONG_LIST)
         return [b"[", b'"x"', b",", b'"y"', b"]"] if _RT[0] % 3 else [b"[", b'"x"', b",", b'"y"', b",", b'"x"', b"]"]
     return [b'"x"']
 
